@@ -334,12 +334,12 @@ fn build_universe() -> Universe {
 // ------------------------------------------------------------------ concrete operations (c06 syntax)
 
 #[derive(Clone, Debug, PartialEq)]
-enum Op { Reg(usize), Def(usize, usize), Imp(usize, usize), Inst(usize, usize), Alias(usize, usize),
+enum Op { Reg(usize), Unreg(usize, usize), Def(usize, usize), Imp(usize, usize), Inst(usize, usize), Alias(usize, usize),
     SetArg(usize, usize, usize), UnsetArg(usize, usize, usize), Export(usize, usize), Unexport(usize), Name(usize, usize), Rm(usize) }
 
 fn show_op(o: &Op) -> String {
     match o {
-        Op::Reg(p) => format!("reg {p}"), Op::Def(n, t) => format!("def {n} {t}"),
+        Op::Reg(p) => format!("reg {p}"), Op::Unreg(i, g) => format!("unreg {i} {g}"), Op::Def(n, t) => format!("def {n} {t}"),
         Op::Imp(n, k) => format!("imp {n} {k}"), Op::Inst(i, g) => format!("inst {i} {g}"), Op::Alias(n, e) => format!("alias {n} {e}"),
         Op::SetArg(i, a, n) => format!("setarg {i} {a} {n}"), Op::UnsetArg(i, a, n) => format!("unsetarg {i} {a} {n}"),
         Op::Export(n, e) => format!("export {n} {e}"), Op::Unexport(n) => format!("unexport {n}"), Op::Name(n, s) => format!("name {n} {s}"),
@@ -350,14 +350,18 @@ fn parse_op(s: &str) -> Option<Op> {
     let f: Vec<&str> = s.split(' ').collect();
     let n = |i: usize| f[i].parse::<usize>().unwrap();
     Some(match f[0] {
-        "reg" => Op::Reg(n(1)), "def" => Op::Def(n(1), n(2)), "imp" => Op::Imp(n(1), n(2)),
+        "reg" => Op::Reg(n(1)), "unreg" => Op::Unreg(n(1), n(2)), "def" => Op::Def(n(1), n(2)), "imp" => Op::Imp(n(1), n(2)),
         "inst" => Op::Inst(n(1), n(2)), "alias" => Op::Alias(n(1), n(2)), "setarg" => Op::SetArg(n(1), n(2), n(3)),
         "unsetarg" => Op::UnsetArg(n(1), n(2), n(3)), "export" => Op::Export(n(1), n(2)), "unexport" => Op::Unexport(n(1)),
         "name" => Op::Name(n(1), n(2)), "rm" => Op::Rm(n(1)), "enc" => return None, _ => panic!("bad op {s}"),
     })
 }
 
-struct Run { g: CompositionGraph, local: Local, pkgs: BTreeMap<(usize, usize), PackageId>, dead: bool }
+/// `pkgs`: every package id ever handed out (stale ones too: using one is the caller's error and panics in the library);
+/// `pkg_of`: the universe package behind each live id
+struct Run { g: CompositionGraph, local: Local, pkgs: BTreeMap<(usize, usize), PackageId>, pkg_of: BTreeMap<(usize, usize), usize>, dead: bool }
+
+static PKG_BYTES: std::sync::OnceLock<Vec<Vec<u8>>> = std::sync::OnceLock::new();
 
 fn pid_pair(p: PackageId) -> (usize, usize) {
     let s = format!("{p:?}");
@@ -378,7 +382,10 @@ fn argerr(e: &wac_graph::InstantiationArgumentError) -> &'static str {
 }
 
 impl Run {
-    fn new(u: &Universe) -> Self { let (g, local) = mk_graph(&u.bytes); Run { g, local, pkgs: BTreeMap::new(), dead: false } }
+    fn new(u: &Universe) -> Self {
+        PKG_BYTES.get_or_init(|| u.bytes.clone());
+        let (g, local) = mk_graph(&u.bytes); Run { g, local, pkgs: BTreeMap::new(), pkg_of: BTreeMap::new(), dead: false }
+    }
     fn node(&self, n: usize) -> Option<NodeId> { self.g.node_ids().find(|i| i.to_string() == n.to_string()) }
 
     fn apply(&mut self, op: &Op) -> String {
@@ -389,10 +396,15 @@ impl Run {
         use wac_graph::*;
         let nid = |s: &Self, n: usize| s.node(n).unwrap_or_else(|| panic!("harness: dead node id {n}"));
         match op {
-            Op::Reg(p) => { let pk = self.local.pkgs[*p].take().unwrap_or_else(|| panic!("harness: package {p} registered twice"));
+            Op::Reg(p) => {
+                // a package object is consumed by registration; after an unregistration it is decoded again
+                let pk = match self.local.pkgs[*p].take() { Some(pk) => pk, None => {
+                    let v = PKGS[*p].version.map(|v| semver::Version::parse(v).unwrap());
+                    Package::from_bytes(PKGS[*p].name, v.as_ref(), PKG_BYTES.get().unwrap()[*p].clone(), self.g.types_mut()).expect("package") } };
                 match self.g.register_package(pk) {
-                    Ok(id) => { let pr = pid_pair(id); self.pkgs.insert(pr, id); format!("pkg{}.{}", pr.0, pr.1) }
+                    Ok(id) => { let pr = pid_pair(id); self.pkgs.insert(pr, id); self.pkg_of.insert(pr, *p); format!("pkg{}.{}", pr.0, pr.1) }
                     Err(RegisterPackageError::PackageAlreadyRegistered { .. }) => "E:PackageAlreadyRegistered".into() } }
+            Op::Unreg(i, gen) => { let id = self.pkgs[&(*i, *gen)]; self.g.unregister_package(id); self.pkg_of.remove(&(*i, *gen)); "ok".into() }
             Op::Def(n, t) => match self.g.define_type(NAMES[*n], self.local.defs[*t]) {
                 Ok(id) => format!("n{id}"),
                 Err(DefineTypeError::TypeAlreadyDefined) => "E:TypeAlreadyDefined".into(),
@@ -743,12 +755,118 @@ impl<'a> Gen<'a> {
 const EXPORT_NAMES: &[usize] = &[0, 1, 2, 3, 4, 6, 7, 8, 9, 11, 14, 19, 22];
 const NODE_NAMES: &[usize] = &[23, 24, 25, 6, 3];
 
+/// package families so that arguments can be wired between instances
+const FAMILIES: &[&[usize]] = &[&[0, 1, 2, 3, 8], &[4, 5, 6, 7, 8], &[9, 10, 11], &[0, 3, 4, 5, 8], &[1, 2, 6, 7, 8, 5], &[4, 5, 7, 9, 10, 11],
+    &[12, 13, 14, 15, 16, 17, 18], &[19, 20, 21, 22], &[12, 13, 16, 19, 20, 21], &[13, 12, 14, 4, 5, 8], &[15, 13, 20, 19, 22, 18]];
+
+/// name and local kind of a random explicit import (see the comment in `gen_composition` on the excluded shape)
+fn pick_import(r: &mut Rng) -> (usize, usize) {
+    let k = r.below(6 + PKG_KINDS.len() as u64) as usize;
+    let n = if k >= 6 {
+        let own = nidx(PKG_KINDS[k - 6].1);
+        let mut c = vec![own, own, own, own, own, 17, 29];
+        if k == 6 || k == 7 { c.extend([10usize, 11, 28]); }
+        if k == 8 { c.push(14); }
+        *r.pick(&c)
+    } else if r.chance(1, 3) { *r.pick(&[17usize, 0, 1, 2, 29]) } else { *r.pick(&[0usize, 1, 2, 10, 11, 12, 13, 14, 17, 28, 34, 35, 36, 38, 41, 42, 43]) };
+    (n, k)
+}
+
+/// An adaptive CONCRETE history with removals: build, then remove nodes / unregister packages / unexport / unset
+/// arguments, then build on (new nodes and packages reuse the freed identifiers), possibly twice; nodes are often
+/// exported under several names before they disappear. Every operation is chosen from identifiers live in the
+/// implementation and kept only if accepted. No creation-order permutations for these.
+fn gen_destructive(u: &Universe, r: &mut Rng, big: bool) -> Vec<Op> {
+    struct N { id: usize, tag: char, kid: usize, pkg: Option<usize>, exported: bool }
+    fn nodes(run: &Run, u: &Universe) -> Vec<N> {
+        run.g.node_ids().map(|id| { let nd = &run.g[id];
+            let tag = match nd.kind() { NodeKind::Definition => 'D', NodeKind::Import(_) => 'I', NodeKind::Instantiation(_) => 'S', NodeKind::Alias => 'A' };
+            N { id: id.to_string().parse().unwrap(), tag, kid: run.kid(u, nd.item_kind()).parse().unwrap_or(0),
+                pkg: nd.package().and_then(|p| run.pkg_of.get(&pid_pair(p)).copied()), exported: nd.export_name().is_some() } }).collect()
+    }
+    fn root(run: &Run, mut id: NodeId) -> NodeId { while let Some((s, _)) = run.g.get_alias_source(id) { id = s; } id }
+    let mut run = Run::new(u);
+    let mut ops: Vec<Op> = Vec::new();
+    let fam = *r.pick(FAMILIES);
+    // returns true when the operation was accepted
+    let doit = |run: &mut Run, ops: &mut Vec<Op>, o: Op| -> bool {
+        if run.dead { return false; }
+        let res = run.apply(&o);
+        if run.dead { ops.push(o); return false; }
+        if res.starts_with("E:") { return false; }
+        ops.push(o); true
+    };
+    for _ in 0..(2 + r.below(2)) { let p = *r.pick(fam); if !run.pkg_of.values().any(|q| *q == p) { doit(&mut run, &mut ops, Op::Reg(p)); } }
+    let rounds = 1 + r.below(2) as usize;
+    for round in 0..=rounds {
+        let steps = if big { 10 + r.below(16) } else { 6 + r.below(10) } as usize;
+        for _ in 0..steps {
+            if run.dead { return ops; }
+            let ns = nodes(&run, u);
+            let live: Vec<((usize, usize), usize)> = run.pkg_of.iter().map(|(k, v)| (*k, *v)).collect();
+            let insts: Vec<&N> = ns.iter().filter(|n| n.tag == 'S').collect();
+            let c = r.below(100);
+            if c < 8 || live.is_empty() { let p = *r.pick(fam); if !live.iter().any(|(_, q)| *q == p) { doit(&mut run, &mut ops, Op::Reg(p)); } }
+            else if c < 26 || (insts.is_empty() && c < 60) { let (k, _) = *r.pick(&live); doit(&mut run, &mut ops, Op::Inst(k.0, k.1)); }
+            else if c < 32 { doit(&mut run, &mut ops, Op::Def(*r.pick(&[6usize, 7, 22, 26, 27, 20]), r.below(6) as usize)); }
+            else if c < 40 { let (n, k) = pick_import(r); doit(&mut run, &mut ops, Op::Imp(n, k)); }
+            else if c < 54 {
+                let il: Vec<&N> = ns.iter().filter(|n| u.inst_exports.get(&n.kid).map(|e| !e.is_empty()).unwrap_or(false)).collect();
+                if !il.is_empty() { let s = *r.pick(&il); let e = r.pick(&u.inst_exports[&s.kid]).0; doit(&mut run, &mut ops, Op::Alias(s.id, e)); }
+            }
+            else if c < 74 && !insts.is_empty() {
+                let i = *r.pick(&insts);
+                let Some(p) = i.pkg else { continue };
+                let imps = &u.pkg_imports[p];
+                if imps.is_empty() { continue; }
+                let (an, _) = *r.pick(imps);
+                let iid = run.node(i.id).unwrap();
+                let mut cands: Vec<usize> = ns.iter().filter(|n| n.id != i.id && root(&run, run.node(n.id).unwrap()) != iid).map(|n| n.id).collect();
+                for _ in 0..6 { if cands.is_empty() { break; } let j = r.below(cands.len() as u64) as usize; let n = cands.swap_remove(j);
+                    if doit(&mut run, &mut ops, Op::SetArg(i.id, an, n)) { break; } }
+            }
+            else if c < 94 && !ns.is_empty() {
+                // often a second (third) name for a node that is exported already
+                let ex: Vec<&N> = ns.iter().filter(|n| n.exported && n.tag != 'D').collect();
+                let n = if !ex.is_empty() && r.chance(1, 2) { *r.pick(&ex) } else { r.pick(&ns) };
+                if n.tag != 'D' || r.chance(1, 8) { doit(&mut run, &mut ops, Op::Export(n.id, *r.pick(EXPORT_NAMES))); }
+            }
+            else if !ns.is_empty() { let n = r.pick(&ns); doit(&mut run, &mut ops, Op::Name(n.id, *r.pick(NODE_NAMES))); }
+        }
+        if round == rounds { break; }
+        for _ in 0..(1 + r.below(3)) {
+            if run.dead { return ops; }
+            let ns = nodes(&run, u);
+            let live: Vec<(usize, usize)> = run.pkg_of.keys().copied().collect();
+            let c = r.below(100);
+            if c < 35 && !live.is_empty() { let k = *r.pick(&live); doit(&mut run, &mut ops, Op::Unreg(k.0, k.1)); }
+            else if c < 65 && !ns.is_empty() {
+                // prefer nodes that carry exports or have dependants
+                let ex: Vec<&N> = ns.iter().filter(|n| n.exported || n.tag == 'S').collect();
+                let n = if !ex.is_empty() && r.chance(2, 3) { *r.pick(&ex) } else { r.pick(&ns) };
+                doit(&mut run, &mut ops, Op::Rm(n.id));
+            }
+            else if c < 80 && !ns.is_empty() {
+                let ex: Vec<&N> = ns.iter().filter(|n| n.exported).collect();
+                let n = if !ex.is_empty() { *r.pick(&ex) } else { r.pick(&ns) };
+                doit(&mut run, &mut ops, Op::Unexport(n.id));
+            }
+            else {
+                let mut args: Vec<(usize, usize, usize)> = Vec::new();
+                for n in ns.iter().filter(|n| n.tag == 'S') {
+                    let id = run.node(n.id).unwrap();
+                    for (nm, src) in run.g.get_instantiation_arguments(id) { args.push((n.id, nidx(nm), src.to_string().parse().unwrap())); }
+                }
+                if !args.is_empty() { let (i, a, s) = *r.pick(&args); doit(&mut run, &mut ops, Op::UnsetArg(i, a, s)); }
+            }
+        }
+    }
+    ops
+}
+
 fn gen_composition(u: &Universe, r: &mut Rng, big: bool) -> (Vec<AOp>, Vec<Option<usize>>) {
     let mut g = Gen::new(u);
-    // package families so that arguments can be wired between instances
-    let families: &[&[usize]] = &[&[0, 1, 2, 3, 8], &[4, 5, 6, 7, 8], &[9, 10, 11], &[0, 3, 4, 5, 8], &[1, 2, 6, 7, 8, 5], &[4, 5, 7, 9, 10, 11],
-        &[12, 13, 14, 15, 16, 17, 18], &[19, 20, 21, 22], &[12, 13, 16, 19, 20, 21], &[13, 12, 14, 4, 5, 8], &[15, 13, 20, 19, 22, 18]];
-    let fam = *r.pick(families);
+    let fam = *r.pick(FAMILIES);
     let npk = 2 + r.below(fam.len() as u64 - 1) as usize;
     let mut chosen: Vec<usize> = Vec::new();
     while chosen.len() < npk { let p = *r.pick(fam); if !chosen.contains(&p) { chosen.push(p); } }
@@ -849,6 +967,12 @@ fn main() {
     let mut r = Rng::new(seed);
     let (ncomp, nperm) = if tier == "thorough" { (4000, 4) } else { (300, 3) };
     for c in 0..ncomp {
+        if c % 4 == 3 {
+            // every fourth composition: a history with removals and re-creation (identifier reuse) before the encode
+            let ops = gen_destructive(&u, &mut r, tier == "thorough" && c % 3 == 0);
+            emit(&ops, &format!("d{c}.0"));
+            continue;
+        }
         let (aops, handle_of) = gen_composition(&u, &mut r, tier == "thorough" && c % 3 == 0);
         let base: Vec<usize> = (0..aops.len()).collect();
         emit(&concretise(&aops, &base, &handle_of), &format!("g{c}.0"));
